@@ -521,9 +521,45 @@ def fcmp(pred, a, b):
     return mk('fcmp', (pred, a, b), 1)
 
 
+def ubounds(t, depth=0):
+    """(lo, hi) bounds of the unsigned value of t from its known bits: constants, concatenations (unknown bits 0 / 1), zero extensions, additions that cannot wrap"""
+    full = (0, (1 << t.w) - 1)
+    if depth > 6:
+        return full
+    if t.op == 'const':
+        return (t.args[0], t.args[0])
+    if t.op == 'concat':
+        lo = hi = pos = 0
+        for p_ in t.args:
+            l_, h_ = ubounds(p_, depth + 1)
+            lo |= l_ << pos
+            hi |= h_ << pos
+            pos += p_.w
+        return (lo, hi)
+    if t.op == 'add':
+        (la, ha), (lb, hb) = ubounds(t.args[0], depth + 1), ubounds(t.args[1], depth + 1)
+        if ha + hb < (1 << t.w):
+            return (la + lb, ha + hb)
+        return full
+    if t.op == 'select':
+        (la, ha), (lb, hb) = ubounds(t.args[1], depth + 1), ubounds(t.args[2], depth + 1)
+        return (min(la, lb), max(ha, hb))
+    if t.op == 'slice' and t.args[1] == 0:
+        l_, h_ = ubounds(t.args[0], depth + 1)
+        if h_ < (1 << t.w):
+            return (l_, h_)
+    return full
+
+
 def icmp(pred, a, b):
     if pred in _SWAP:
         pred, a, b = _SWAP[pred], b, a
+    if pred in ('ult', 'ule') and (a.op in ('add', 'concat', 'select') or b.op in ('add', 'concat', 'select')) and not (a.op == 'const' and b.op == 'const'):
+        (la, ha), (lb, hb) = ubounds(a), ubounds(b)
+        if (ha < lb) if pred == 'ult' else (ha <= lb):
+            return TRUE
+        if (la >= hb) if pred == 'ult' else (la > hb):
+            return FALSE
     if a.op == 'const' and b.op == 'const':
         x, y = a.args[0], b.args[0]
         sx, sy = sval(a), sval(b)
